@@ -1,6 +1,6 @@
 """C11 harness: mixtures by weight / volume as calls and in every string form (wt%, vol%, mass and
 volume units, layer thicknesses, nested and repeated groups)."""
-import json, sys, random
+import math, json, sys, random
 from pyenc import enc, attempt, cstr, err_kind
 from fcommon import *
 import periodictable
@@ -162,7 +162,17 @@ while len(cases) < ncase:
                 ps = [float("%.*f" % (e, 100 - 10.0 ** -e))]
             else:
                 ps = sorted(ps[:-1] + [float("%.*f" % (e, 100 - sum(ps[:-1]) - 10.0 ** -e))])
-            stats["tiny_remainder"] = stats.get("tiny_remainder", 0) + 1
+            # 100 - sum(fract) is taken in doubles; Python >= 3.12 sums with compensation, older versions naively.
+            # For a remainder this small one ulp of the sum is visible, so keep to inputs where both agree (the model
+            # sums naively, rounding every partial sum)
+            naive = 0.0
+            for x in ps:
+                naive += x
+            if naive != sum(ps) or naive != math.fsum(ps):
+                ps = ps[-1:] if n == 2 else sorted(round(rng.uniform(0.5, 90.0 / n), rng.randint(0, 3)) for _ in range(n - 1))
+                stats["tiny_remainder_skipped"] = stats.get("tiny_remainder_skipped", 0) + 1
+            else:
+                stats["tiny_remainder"] = stats.get("tiny_remainder", 0) + 1
         word = rng.choice(["vol%", "%vol", "volume%", "v%", "%v", "vol% "] if vol else ["wt%", "%wt", "weight%", "mass%", "w%", "m%", "%mass", "%w"])
         sp = rng.choice([" ", " ", ""])
         s = "%s%s%s %s" % (num(ps[0]), sp, word, comps[0])
